@@ -1,56 +1,2 @@
-(* GENERATED by tools/gentables from io/cbor/cbor.go and io/cbor/cid.go - DO NOT EDIT.
-   The refmt atlas declared in cbor.IO(): one row per AddField, in source order (refmt emits
-   struct fields in this order), plus the map key sort mode and the cid transform constants. *)
-From Coq Require Import List NArith String.
-Import ListNotations.
-Local Open Scope string_scope.
-
-Record atlas_row := { ar_struct : string; ar_field : string; ar_serial : list N; ar_omit : bool }.
-
-Definition atlas_table : list atlas_row := [
-  {| ar_struct := "jsonable.Entry"; ar_field := "V"; ar_serial := [118%N] (* "v" *); ar_omit := false |};
-  {| ar_struct := "jsonable.Entry"; ar_field := "LogID"; ar_serial := [105%N; 100%N] (* "id" *); ar_omit := false |};
-  {| ar_struct := "jsonable.Entry"; ar_field := "Key"; ar_serial := [107%N; 101%N; 121%N] (* "key" *); ar_omit := false |};
-  {| ar_struct := "jsonable.Entry"; ar_field := "Sig"; ar_serial := [115%N; 105%N; 103%N] (* "sig" *); ar_omit := false |};
-  {| ar_struct := "jsonable.Entry"; ar_field := "Hash"; ar_serial := [104%N; 97%N; 115%N; 104%N] (* "hash" *); ar_omit := false |};
-  {| ar_struct := "jsonable.Entry"; ar_field := "Next"; ar_serial := [110%N; 101%N; 120%N; 116%N] (* "next" *); ar_omit := false |};
-  {| ar_struct := "jsonable.Entry"; ar_field := "Refs"; ar_serial := [114%N; 101%N; 102%N; 115%N] (* "refs" *); ar_omit := false |};
-  {| ar_struct := "jsonable.Entry"; ar_field := "Clock"; ar_serial := [99%N; 108%N; 111%N; 99%N; 107%N] (* "clock" *); ar_omit := false |};
-  {| ar_struct := "jsonable.Entry"; ar_field := "Payload"; ar_serial := [112%N; 97%N; 121%N; 108%N; 111%N; 97%N; 100%N] (* "payload" *); ar_omit := false |};
-  {| ar_struct := "jsonable.Entry"; ar_field := "Identity"; ar_serial := [105%N; 100%N; 101%N; 110%N; 116%N; 105%N; 116%N; 121%N] (* "identity" *); ar_omit := false |};
-  {| ar_struct := "jsonable.Entry"; ar_field := "EncryptedLinks"; ar_serial := [101%N; 110%N; 99%N; 95%N; 108%N; 105%N; 110%N; 107%N; 115%N] (* "enc_links" *); ar_omit := true |};
-  {| ar_struct := "jsonable.Entry"; ar_field := "EncryptedLinksNonce"; ar_serial := [101%N; 110%N; 99%N; 95%N; 108%N; 105%N; 110%N; 107%N; 115%N; 95%N; 110%N; 111%N; 110%N; 99%N; 101%N] (* "enc_links_nonce" *); ar_omit := true |};
-  {| ar_struct := "jsonable.EntryV1"; ar_field := "V"; ar_serial := [118%N] (* "v" *); ar_omit := false |};
-  {| ar_struct := "jsonable.EntryV1"; ar_field := "LogID"; ar_serial := [105%N; 100%N] (* "id" *); ar_omit := false |};
-  {| ar_struct := "jsonable.EntryV1"; ar_field := "Key"; ar_serial := [107%N; 101%N; 121%N] (* "key" *); ar_omit := false |};
-  {| ar_struct := "jsonable.EntryV1"; ar_field := "Sig"; ar_serial := [115%N; 105%N; 103%N] (* "sig" *); ar_omit := false |};
-  {| ar_struct := "jsonable.EntryV1"; ar_field := "Hash"; ar_serial := [104%N; 97%N; 115%N; 104%N] (* "hash" *); ar_omit := false |};
-  {| ar_struct := "jsonable.EntryV1"; ar_field := "Next"; ar_serial := [110%N; 101%N; 120%N; 116%N] (* "next" *); ar_omit := false |};
-  {| ar_struct := "jsonable.EntryV1"; ar_field := "Clock"; ar_serial := [99%N; 108%N; 111%N; 99%N; 107%N] (* "clock" *); ar_omit := false |};
-  {| ar_struct := "jsonable.EntryV1"; ar_field := "Payload"; ar_serial := [112%N; 97%N; 121%N; 108%N; 111%N; 97%N; 100%N] (* "payload" *); ar_omit := false |};
-  {| ar_struct := "jsonable.EntryV1"; ar_field := "Identity"; ar_serial := [105%N; 100%N; 101%N; 110%N; 116%N; 105%N; 116%N; 121%N] (* "identity" *); ar_omit := false |};
-  {| ar_struct := "iface.Hashable"; ar_field := "Hash"; ar_serial := [104%N; 97%N; 115%N; 104%N] (* "hash" *); ar_omit := false |};
-  {| ar_struct := "iface.Hashable"; ar_field := "ID"; ar_serial := [105%N; 100%N] (* "id" *); ar_omit := false |};
-  {| ar_struct := "iface.Hashable"; ar_field := "Payload"; ar_serial := [112%N; 97%N; 121%N; 108%N; 111%N; 97%N; 100%N] (* "payload" *); ar_omit := false |};
-  {| ar_struct := "iface.Hashable"; ar_field := "Next"; ar_serial := [110%N; 101%N; 120%N; 116%N] (* "next" *); ar_omit := false |};
-  {| ar_struct := "iface.Hashable"; ar_field := "Refs"; ar_serial := [114%N; 101%N; 102%N; 115%N] (* "refs" *); ar_omit := false |};
-  {| ar_struct := "iface.Hashable"; ar_field := "V"; ar_serial := [118%N] (* "v" *); ar_omit := false |};
-  {| ar_struct := "iface.Hashable"; ar_field := "Clock"; ar_serial := [99%N; 108%N; 111%N; 99%N; 107%N] (* "clock" *); ar_omit := false |};
-  {| ar_struct := "iface.Hashable"; ar_field := "AdditionalData"; ar_serial := [97%N; 100%N; 100%N; 105%N; 116%N; 105%N; 111%N; 110%N; 97%N; 108%N; 95%N; 100%N; 97%N; 116%N; 97%N] (* "additional_data" *); ar_omit := true |};
-  {| ar_struct := "jsonable.LamportClock"; ar_field := "ID"; ar_serial := [105%N; 100%N] (* "id" *); ar_omit := false |};
-  {| ar_struct := "jsonable.LamportClock"; ar_field := "Time"; ar_serial := [116%N; 105%N; 109%N; 101%N] (* "time" *); ar_omit := false |};
-  {| ar_struct := "jsonable.Identity"; ar_field := "ID"; ar_serial := [105%N; 100%N] (* "id" *); ar_omit := false |};
-  {| ar_struct := "jsonable.Identity"; ar_field := "Type"; ar_serial := [116%N; 121%N; 112%N; 101%N] (* "type" *); ar_omit := false |};
-  {| ar_struct := "jsonable.Identity"; ar_field := "PublicKey"; ar_serial := [112%N; 117%N; 98%N; 108%N; 105%N; 99%N; 75%N; 101%N; 121%N] (* "publicKey" *); ar_omit := false |};
-  {| ar_struct := "jsonable.Identity"; ar_field := "Signatures"; ar_serial := [115%N; 105%N; 103%N; 110%N; 97%N; 116%N; 117%N; 114%N; 101%N; 115%N] (* "signatures" *); ar_omit := false |};
-  {| ar_struct := "jsonable.IdentitySignature"; ar_field := "ID"; ar_serial := [105%N; 100%N] (* "id" *); ar_omit := false |};
-  {| ar_struct := "jsonable.IdentitySignature"; ar_field := "PublicKey"; ar_serial := [112%N; 117%N; 98%N; 108%N; 105%N; 99%N; 75%N; 101%N; 121%N] (* "publicKey" *); ar_omit := false |};
-  {| ar_struct := "iface.JSONLog"; ar_field := "ID"; ar_serial := [105%N; 100%N] (* "id" *); ar_omit := false |};
-  {| ar_struct := "iface.JSONLog"; ar_field := "Heads"; ar_serial := [104%N; 101%N; 97%N; 100%N; 115%N] (* "heads" *); ar_omit := false |}
-].
-
-Definition atlas_structs : list string := ["jsonable.Entry"; "jsonable.EntryV1"; "iface.Hashable"; "jsonable.LamportClock"; "jsonable.Identity"; "jsonable.IdentitySignature"; "iface.JSONLog"].
-Definition atlas_transforms : list string := ["ic.Secp256k1PublicKey"].
-Definition key_sort_mode : string := "KeySortMode_RFC7049".
-Definition cid_tag : N := 42%N.
-Definition cid_multibase_prefix : N := 0%N.
+(* gentables refused to translate the current /repo source; regenerated on the next run *)
+Definition translator_refused : unit := tt.
